@@ -20,6 +20,7 @@ func checkC07(c *Ctx) {
 	c.R.NotCover = append(c.R.NotCover, "that deliveries on the wire start/stop exactly at the ack under concurrent publishers (schedule-dependent)", "that the filters of the request were decoded correctly (C03/C04)", "the matching relation itself (C06)")
 	c.useRules(ruleP2, ruleP3, ruleP4, ruleP5, ruleP6, ruleL1)
 	c.endOfLevelsSignal()
+	c.lookupsConsultTheTree()
 	r := c.Roles()
 	if !c.Need("message handler", r.Handler, "handler cases", r.Cases, "ring writer", r.RingWrite) {
 		return
